@@ -707,3 +707,87 @@ Proof.
   - intros [H1 H2]. rewrite H1. split; [reflexivity|]. apply firstn_all_spec; [|exact H2].
     apply Nat.lt_le_incl. apply nth_error_Some. congruence.
 Qed.
+
+(* ------------------------------------------------------------------ the fragment layer, multi-step *)
+Definition fop := (host * option (freq * list itype) * freq)%type.
+
+Fixpoint frun (gate : bool) (md : mode) (s : fsys) (ops : list fop) : option fsys :=
+  match ops with
+  | [] => Some s
+  | (h, fresh, pod) :: t =>
+      match fstep gate md s h fresh pod with
+      | None => None
+      | Some (s', _) => frun gate md s' t
+      end
+  end.
+
+Definition tpls_offs (tpls : list (freq * list itype)) : list (string * rid * Z) := flat_map (fun t => catalog_offs (snd t)) tpls.
+
+Definition finit (tpls : list (freq * list itype)) : fsys :=
+  mkFS (init_sys (tpls_offs tpls)) (fun _ => mkF None None None) (fun _ => []).
+
+Definition its_in_cat (tpls : list (freq * list itype)) (its : list itype) : Prop :=
+  forall it, In it its -> exists tpl, In tpl tpls /\ In it (snd tpl).
+
+Lemma catalog_in_tpls : forall tpls its x, its_in_cat tpls its -> In x (catalog_offs its) -> In x (tpls_offs tpls).
+Proof.
+  intros tpls its x Hc H. unfold catalog_offs in H. apply in_flat_map in H. destruct H as [it [Hit Hx]].
+  destruct (Hc it Hit) as [tpl [Ht Hi]]. unfold tpls_offs. apply in_flat_map. exists tpl. split; [exact Ht|].
+  unfold catalog_offs. apply in_flat_map. exists it. split; assumption.
+Qed.
+
+Lemma cands_known : forall tpls q its, its_in_cat tpls its ->
+  Forall (fun r => spec_cap (tpls_offs tpls) r <> None) (cands_of q its).
+Proof.
+  intros tpls q its Hc. apply Forall_forall. intros r Hr. destruct (cands_of_in_catalog q its r Hr) as [c Hin].
+  eapply spec_cap_known. eapply catalog_in_tpls; eauto.
+Qed.
+
+Definition FInv (tpls : list (freq * list itype)) (s : fsys) : Prop :=
+  SInv (spec_cap (tpls_offs tpls)) (fs_core s) /\ forall h, its_in_cat tpls (fs_its s h).
+
+Definition fops_ok (tpls : list (freq * list itype)) (ops : list fop) : Prop :=
+  forall h tpl pod, In (h, Some tpl, pod) ops -> In tpl tpls.
+
+Lemma fstep_inv : forall tpls gate md s h fresh pod, caps_nonneg (tpls_offs tpls) -> FInv tpls s ->
+  (forall tpl, fresh = Some tpl -> In tpl tpls) ->
+  exists s' out, fstep gate md s h fresh pod = Some (s', out) /\ FInv tpls s'.
+Proof.
+  intros tpls gate md s h fresh pod Hnn [Hs Hc] Hf. unfold fstep.
+  destruct (match fresh with Some x => x | None => (fs_req s h, fs_its s h) end) as [q0 its0] eqn:Eq.
+  assert (Hits0 : its_in_cat tpls its0).
+  { destruct fresh as [[q its]|]; inversion Eq; subst.
+    - intros it Hit. exists (q0, its0). split; [apply Hf; reflexivity | exact Hit].
+    - apply Hc. }
+  destruct (negb (fcompat q0 pod)); [exists s, FIncompatible; split; [reflexivity | split; assumption]|].
+  destruct (is_nil (filter (it_ok (finter q0 pod)) its0)); [exists s, FIncompatible; split; [reflexivity | split; assumption]|].
+  assert (Hrem : its_in_cat tpls (filter (it_ok (finter q0 pod)) its0)).
+  { intros it Hit. apply filter_In in Hit. apply Hits0. tauto. }
+  destruct (step_inv (spec_cap (tpls_offs tpls)) Hnn gate md (fs_core s) h _ Hs (cands_known tpls (finter q0 pod) _ Hrem)) as [c' [o [E [Hs' _]]]].
+  rewrite E. destruct o as [ofs|].
+  - eexists. eexists. split; [reflexivity|]. split; [exact Hs'|]. intros h'. simpl. unfold upd.
+    destruct (String.eqb h' h); [exact Hrem | apply Hc].
+  - exists s, FDeferred. split; [reflexivity | split; assumption].
+Qed.
+
+(* every sequence of pods with In-requirements on zone / capacity type / instance type over any catalogue of
+   NodePool templates: the run is total and the three claims of the property hold in the final state *)
+Lemma fragment_pass_l : forall tpls gate md ops, caps_nonneg (tpls_offs tpls) -> fops_ok tpls ops ->
+  exists fs, frun gate md (finit tpls) ops = Some fs /\
+    (forall r c0, spec_cap (tpls_offs tpls) r = Some c0 ->
+       0 <= holders (fs_core fs) r <= c0 /\ cap (s_mgr (fs_core fs)) r = Some (c0 - holders (fs_core fs) r)) /\
+    (forall h r, (match pin (fs_core fs) h with Some ids => In r ids | None => False end) <-> holds (s_mgr (fs_core fs)) h r = true).
+Proof.
+  intros tpls gate md ops Hnn Hok.
+  assert (G : forall ops s, FInv tpls s -> fops_ok tpls ops -> exists fs, frun gate md s ops = Some fs /\ FInv tpls fs).
+  { induction ops0 as [|[[h fresh] pod] t IH]; intros s Hs Ho; simpl; [exists s; split; [reflexivity | exact Hs]|].
+    destruct (fstep_inv tpls gate md s h fresh pod Hnn Hs) as [s' [out [E Hs']]].
+    { intros tpl Hf. subst fresh. eapply Ho. left. reflexivity. }
+    rewrite E. apply IH; [exact Hs'|]. intros h' tpl pod' Hin. eapply Ho. right. exact Hin. }
+  destruct (G ops (finit tpls)) as [fs [E [Hs _]]].
+  - split; [apply init_SInv | intros h it Hit; destruct Hit].
+  - exact Hok.
+  - exists fs. split; [exact E|]. split.
+    + intros r c0 Hc. apply (SInv_holders (spec_cap (tpls_offs tpls)) Hnn (fs_core fs) r c0 Hs Hc).
+    + intros h r. apply (SInv_pinned (spec_cap (tpls_offs tpls))). exact Hs.
+Qed.
